@@ -52,14 +52,14 @@ def text_for(rng, hostile, allow_empty=False):
 
 def gen_graph(rng, n_ns=None, n_nodes=None, hostile=True, closed=True, values_ok=True, features=None, layered=None):
     """features: dict of switches that keep the graph inside / outside recorded-defect classes"""
-    f = {"browse_colon": False, "attr_overflow": False, "empty_ns": False, "no_ua_use": False}
+    f = {"browse_colon": False, "attr_overflow": False, "empty_ns": False, "no_ua_use": False, "hostile_uri": False}
     f.update(features or {})
     # layered: 3-5 namespaces of which only some pairs are linked, so that a namespace uses a later one but not an earlier one
     if layered is None:
         layered = n_ns is None and rng.random() < 0.35
     k = n_ns or (rng.randint(3, 5) if layered else rng.randint(1, 3))
     uris = ["http://%s.example/%s" % (rng.choice("abcdefg"), gen.plain_text(rng, 1).lower()) + str(i) for i in range(k)]
-    if hostile and rng.random() < 0.3:
+    if (hostile and rng.random() < 0.3) or f.get("hostile_uri"):
         uris[rng.randrange(k)] += "?a=1&b=<2>"
     link = {frozenset((a, b)) for a in uris for b in uris if a < b and (not layered or rng.random() < 0.4)}
 
